@@ -34,7 +34,7 @@ REQUIRED = {"wild.status_rollup_over_actual_children": {"quick": 8, "thorough": 
             "inject.rule": {"quick": 500, "thorough": 3000}, "inject.outline": {"quick": 250, "thorough": 1200},
             "runs.containers_checked": {"quick": 20000, "thorough": 1000000}, "history.latest_run_only": {"quick": 200, "thorough": 8000},
             "history.reset_leaves_nothing": {"quick": 100, "thorough": 4000}}
-REQUIRED_SEEN = {"rule_titles": ["two_rules_with_the_same_title_or_none"], "raising_hook_decoration": ["capture"], "feature_status": ["passed", "failed", "error", "skipped", "untested", "hook_error"],
+REQUIRED_SEEN = {"rule_titles": ["two_rules_with_the_same_title_or_none"], "run_cut_short_by": ["abort_in_front_of_outlines_under_tag_selection"], "raising_hook_decoration": ["capture"], "feature_status": ["passed", "failed", "error", "skipped", "untested", "hook_error"],
                  "scenario_status": ["passed", "failed", "error", "skipped", "untested", "hook_error"],
                  "junit_mode": ["on", "off"], "raising_step_hook": ["after_step_of_a_failing_step"], "autoretry_patch_style": ["rows", "as_listed"], "raising_tag_hook": ["tag_on_one_level", "tag_on_several_levels"]}
 EXHAUSTIVE = True
@@ -257,6 +257,11 @@ class CheckingReporter(object):
 def real_runs(mon, lab, rng, n, tier):
     for i in range(n):
         gen = {"outcomes": OUTCOMES + ["abort"], "weights": {"abort": 0.3}} if i % 5 == 0 else {}
+        if i % 10 == 5:
+            # a step that aborts the run from user code (context.abort(), passing otherwise) in front of outlines, under a tag selection
+            # that takes some outlines out: what the abort left unexecuted is untested, selected or not
+            gen = {"outcomes": ["abort", "fail"], "weights": {"abort": 3.0}, "p_nonpass": 0.25, "p_outline": 0.6, "p_tag": 0.6, "max_items": 4}
+            mon.seen("run_cut_short_by", "abort_in_front_of_outlines_under_tag_selection")
         gen["p_stepless"] = 0.0     # childless scenarios are out of scope and would poison their parents
         if i % 4 == 1:
             gen["p_tag"] = 0.7          # densely tagged trees: the same tag on a scenario and on its rule / feature
